@@ -10,9 +10,9 @@ from fractions import Fraction as F
 from mc import domains as D
 from mc.engine import InputPart, Viol
 from mc.models import ival
-from mc.props.common import IT, PT, Textgrid, errors, PE, call, ents, wellformed, canon, snap_tg
+from mc.props.common import IT, PT, Textgrid, errors, PE, call, ents, wellformed, canon, snap_tg, fresh
 
-RMODES = ("silence", "warning", "error")
+RMODES = fresh(("silence", "warning", "error"))
 OFFS = (-5.0, -4.0, -2.5, -2.0, -1.0, -0.5, 0.0, 0.5, 1.0, 3.0)
 DOFFS = (-1.3, -0.7, -0.3, -0.1, 0.1, 0.3, 0.7, 1.7)
 
